@@ -263,7 +263,7 @@ PROPS["C19"] = {
     "note": "where CiA 301 does not fix the client's reaction an allowed set is used: a malformed response may be ignored (then the timeout path is checked) or end the transfer once with a non-zero code and at most one abort frame - never code 0; an object smaller than the buffer or a segmented answer to a <= 4-byte upload may complete with the server's bytes as a prefix or be refused; an abort with a foreign multiplexer may be ignored or taken. The timeout is per response. NMT resets during a transfer are C20's. Second/third transfers after a deviation use 8 probe transfers, not every size",
     "jobs": {
         "quick": [J("c19", c, deadline=150) for c in range(26)] + [J("c19", c, defs=CL2, deadline=150) for c in (0, 1, 14, 15, 24, 25)],
-        "thorough": [J("c19", c, deadline=880) for c in range(26)] + [J("c19", c, defs=CL2, deadline=880) for c in (0, 1, 14, 15, 16, 17, 24, 25)],
+        "thorough": [J("c19", c, deadline=550) for c in range(26)] + [J("c19", c, defs=CL2, deadline=550) for c in (0, 1, 14, 15, 24, 25)],
     },
 }
 
